@@ -17,7 +17,7 @@ value classes
                    bucket.count elsewhere
 """
 from .facts import Prover, FactCache, _k, strip_bitcasts
-from .ir import resolve_addr, const_int
+from .ir import resolve_addr, const_int, unit_step
 
 HASH_FTY = 'i64 (i64, i64)'
 
@@ -53,23 +53,24 @@ def same_value_loads(f, x, y):
     if ka.key() != kb.key() or not ka.steps:
         return False
     for first, second in ((a, b), (b, a)):
-        fwd = {bl.idx for bl in f.reachable_from(first.block)}
-        if second.block.idx not in fwd:
+        if first.block is second.block and first.pos >= second.pos:
             continue
-        between = [bl for bl in f.blocks if bl.idx in fwd and second.block.idx in {z.idx for z in f.reachable_from(bl)}]
-        clean = True
-        for bl in between:
-            for i in bl.insts:
-                if bl is first.block and i.pos <= first.pos:
-                    continue
-                if bl is second.block and i.pos >= second.pos and bl is not first.block:
-                    continue
-                if i.op == 'store' and resolve_addr(f, i.o[1]).steps == ka.steps:
-                    clean = False
-                if i.op == 'call' and not i.is_intrinsic() and not i.x.get('noreturn'):
-                    clean = False
-        if clean:
-            return True
+        # the value of `first` is that of its latest execution: every path from there to `second` is a segment
+        # that does not re-enter first's block (a loop's back edge re-executes `first`)
+        if first.block is second.block:
+            seg = [i for i in first.block.insts if first.pos < i.pos < second.pos]
+        else:
+            mid, again = f.threaded_paths(first.block, second.block)
+            if mid is None:
+                continue
+            seg = [i for i in first.block.insts if i.pos > first.pos]
+            seg += list(second.block.insts) if again else [i for i in second.block.insts if i.pos < second.pos]
+            for bl in mid:
+                seg += list(bl.insts)
+        if True:
+            if not any((i.op == 'store' and resolve_addr(f, i.o[1]).steps == ka.steps)
+                       or (i.op == 'call' and not i.is_intrinsic() and not i.x.get('noreturn')) for i in seg):
+                return True
     return False
 
 
@@ -123,8 +124,8 @@ class Roles:
                 self.cleaner.append(f)
             for s in f.all_insts():
                 if s.op == 'store' and fld(f, s) == 'bucket.rh.clean':
-                    v = f.get(s.o[0])
-                    if v is not None and v.op == 'add' and const_int(v.o[1]) == 1 and is_load_of(f, v.o[0], 'bucket.rh.clean'):
+                    base, step = unit_step(f, s.o[0])
+                    if step == 1 and is_load_of(f, base, 'bucket.rh.clean'):
                         if f not in self.sweep:
                             self.sweep.append(f)
             geos = set()
